@@ -227,16 +227,26 @@ def taint_before(fn, before, is_source):
     return t, (t.block(body, set(), []) or set())
 
 
-def stmts_with_conds(stmts, conds=()):
+def conds_map(stmts):
+    """{id(statement): path conditions} for every statement, compound ones included (the conditions under which the
+    test of an `if` / the header of a loop is evaluated)"""
+    rec = {}
+    stmts_with_conds(stmts, record=rec)
+    return rec
+
+
+def stmts_with_conds(stmts, conds=(), record=None):
     """[(simple statement, path conditions)] of a statement list (same guard-clause treatment as Taint.block)"""
     out = []
     conds = list(conds)
     for s in stmts:
         if isinstance(s, (ast.FunctionDef, ast.AsyncFunctionDef, ast.ClassDef)):
             continue
+        if record is not None:
+            record[id(s)] = list(conds)
         if isinstance(s, ast.If):
-            out += stmts_with_conds(s.body, conds + [(s.test, True)])
-            out += stmts_with_conds(s.orelse, conds + [(s.test, False)])
+            out += stmts_with_conds(s.body, conds + [(s.test, True)], record)
+            out += stmts_with_conds(s.orelse, conds + [(s.test, False)], record)
             t1, t2 = _terminates(s.body), bool(s.orelse) and _terminates(s.orelse)
             if t1 and t2:
                 break
@@ -246,18 +256,18 @@ def stmts_with_conds(stmts, conds=()):
                 conds = conds + [(s.test, True)]
             continue
         if isinstance(s, (ast.For, ast.AsyncFor, ast.While)):
-            out += stmts_with_conds(s.body, conds)
-            out += stmts_with_conds(s.orelse, conds)
+            out += stmts_with_conds(s.body, conds, record)
+            out += stmts_with_conds(s.orelse, conds, record)
             continue
         if isinstance(s, ast.Try):
-            out += stmts_with_conds(s.body, conds)
+            out += stmts_with_conds(s.body, conds, record)
             for h in s.handlers:
-                out += stmts_with_conds(h.body, conds + [(h, True)])
-            out += stmts_with_conds(s.orelse, conds)
-            out += stmts_with_conds(s.finalbody, conds)
+                out += stmts_with_conds(h.body, conds + [(h, True)], record)
+            out += stmts_with_conds(s.orelse, conds, record)
+            out += stmts_with_conds(s.finalbody, conds, record)
             continue
         if isinstance(s, (ast.With, ast.AsyncWith)):
-            out += stmts_with_conds(s.body, conds)
+            out += stmts_with_conds(s.body, conds, record)
             continue
         out.append((s, list(conds)))
         if isinstance(s, (ast.Return, ast.Raise, ast.Continue, ast.Break)) or _is_throw(s):
